@@ -178,17 +178,30 @@ func GenLimits(t *rapid.T, maxDepth int) LimSpec {
 		if rapid.IntRange(0, 2).Draw(t, "stopAtOnce") == 0 {
 			l.StopAfterMs = 0
 		}
-		if rapid.Bool().Draw(t, "plusDepth") {
+		switch rapid.IntRange(0, 3).Draw(t, "plusLimit") {
+		case 0, 1:
 			l.Depth = rapid.IntRange(1, maxDepth).Draw(t, "depth")
+		case 2: // a node limit reached long before the stop: the answer still has to wait for the stop
+			l.Nodes = rapid.IntRange(1, 3000).Draw(t, "infNodes")
 		}
 	case 7:
 		l.Mode = "ponder"
 		l.MoveTime = rapid.IntRange(5, 40).Draw(t, "movetime")
 		l.StopAfterMs = rapid.IntRange(0, 40).Draw(t, "stopAfter")
+		if rapid.IntRange(0, 3).Draw(t, "ponderNodes") == 0 {
+			l.Nodes = rapid.IntRange(1, 3000).Draw(t, "pNodes")
+		}
 	case 8:
 		l.Mode = "ponder"
 		l.MoveTime = rapid.IntRange(5, 40).Draw(t, "movetime")
 		l.PonderHitAfterMs = rapid.IntRange(0, 30).Draw(t, "ponderhitAfter")
+		switch rapid.IntRange(0, 4).Draw(t, "ponderLimit") {
+		case 0: // pondering on a depth limit without a clock: after the ponderhit the answer is due when the depth is reached
+			l.MoveTime = 0
+			l.Depth = rapid.IntRange(1, maxDepth).Draw(t, "pDepth")
+		case 1:
+			l.Nodes = rapid.IntRange(1, 3000).Draw(t, "pNodes")
+		}
 	}
 	return l
 }
